@@ -388,6 +388,8 @@ class VolumeF(Family):
             return "volume: evaluation of a valid shape failed: %s" % (out,)
         o = out["ok"]
         Uu, Uv, Uw = o["kvu"], o["kvv"], o["kvw"]
+        if len(o["single"]) != len(c["uvws"]) or len(o["list"]) != len(c["uvws"]):
+            return "volume-entrypoints: evaluate_list returned %d points for %d parameters" % (len(o["list"]), len(c["uvws"]))
         for (u, v, w), a, b in zip(c["uvws"], o["single"], o["list"]):
             exp = S.volume_def(c, Uu, Uv, Uw, u, v, w)
             if not gc.closel(a, exp):
